@@ -2168,7 +2168,7 @@ def make_W_II(t, A, B, C, D):
 
     """
     tC = np.sqrt(np.abs(t))  # spread time step across B, C
-    tB = t / tC
+    tB = t / tC if tC != 0.0 else 0.0 * t  # t = 0: U_II = identity
     d = D.shape[0]
 
     # The virtual size of W is  (1+Nr, 1+Nc)
